@@ -44,7 +44,9 @@ def gen(rng, tier):
 def nontrivial(sig):
     h = sig["hist"]
     # a mailbox hand-over happened and at least two client calls were made
-    return h.get("xchg F#.join_info", 0) >= 1 and h.get("note call", 0) >= 2
+    calls = sum(v for k, v in h.items() if k.startswith("note call"))
+    took = sum(v for k, v in h.items() if k.startswith("w F#.join_info"))
+    return took >= 1 and calls >= 2
 
 
 SPEC = {
